@@ -7,6 +7,15 @@
     freshly built compiler is run on them (default message format and -M no-source), and
     spec/TraceSrcPos.tla -- the same Include machine at the REAL widths (14, 48) -- decides for
     every case whether the printed file/line/column/text/count are the required ones.
+(C) The REPORT as the user reads it (spec/Report.tla: comsgReportFile/ReportLine/PrintLine/PrintDots and
+    sposLineText with its cache, against ReqReport = the required sequence of headings, echoed source
+    lines, carets and leads): TLC checks ReportFaithful over every layout within the bounds and every
+    choice of up to 3 lines with messages in several columns, sorted and unsorted; the default-style
+    output of EVERY replay case is parsed into that structure and compared by TraceSrcPos (heading file
+    and line, echoed text = that line of THAT file on disk, caret columns, leads, grouping); TLC also
+    enumerates the layouts in which two remembered lines have the same line number in different files
+    or differently renumbered stretches (spec/ReportGen.tla), a seed-chosen sample of which is rendered
+    with one to three planted messages per line and replayed in the styles default, -Mno-sort, -Mpreview.
 """
 import json
 import os
@@ -27,7 +36,7 @@ META = {
     "technique": "TLA+ (Include/SrcPos) checked exhaustively with TLC at scaled widths; TLC-evaluated replay of abstract "
                  "file sets against the compiler's diagnostics at the real widths (TraceSrcPos)",
     "design_ref": "DESIGN.md §3.8, §5 C15",
-    "level_text": "TLC exhaustive within bounds (<=3 files, <=12 lines, <=5/6/7 items) + replay of generated cases",
+    "level_text": "TLC exhaustive within bounds (<=3 files, <=12 lines, <=5/6/7 items; reports of <=3 lines x 3 columns) + replay of generated cases",
     "level_note": "PosFaithful holds for the required design; the code as written violates it in three characterised ways "
                   "(known findings); Apalache at real widths is an additional obligation recorded in the evidence",
 }
@@ -44,16 +53,17 @@ def model_runs(tier):
     """waves of (cfg, expectation, workers); the runs of a wave execute concurrently"""
     waves = [[("IncludeReq", "hold", 5), ("IncludeAswFit", "hold", 5), ("IncludeReq3", "hold", 3), ("IncludeAswFit3", "hold", 3)],
              [("IncludeAswPack", "violate", 2), ("IncludeAswTbl", "violate", 2), ("IncludeAswEof", "violate", 3),
-              ("IncludeNoLimit", "violate", 2), ("IncludeReqMac", "hold+cov", 3), ("IncludeShift:IncludeShiftReq", "hold", 4)],
-             # the report (spec/Report.tla): what comsg.c prints = the required report for every choice of messages;
-             # grouping by the local line number alone and the heading as written must each be refuted
-             [("Report:ReportReq", "hold", 6), ("Report:ReportLline", "violate", 2), ("Report:ReportAswHead", "violate", 2)]]
+              ("IncludeNoLimit", "violate", 2), ("IncludeReqMac", "hold+cov", 3), ("IncludeShift:IncludeShiftReq", "hold", 4),
+              # the report (spec/Report.tla): what comsg.c prints = the required report for every choice of messages;
+              # grouping by the local line number alone and the heading as written must each be refuted
+              ("Report:ReportReq", "hold", 4), ("Report:ReportLline", "violate", 1), ("Report:ReportAswHead", "violate", 1)]]
     if tier == "thorough":
         waves += [[("IncludeReq5", "hold", 8), ("IncludeAswFit5", "hold", 8)],
                   [("IncludeShift:IncludeShiftAsw", "hold", 8), ("IncludeShift:IncludeShiftAswPack", "violate", 2), ("IncludeAswPackFit", "hold", 6)],
                   [("IncludeShift:IncludeShiftReq4", "hold", 8), ("IncludeShift:IncludeShiftReq3f", "hold", 8)],
                   [("IncludeReq6", "hold", 16)], [("IncludeAswFit6", "hold", 16)],
-                  [("IncludeReqIF7", "hold", 16)]]
+                  [("IncludeReqIF7", "hold", 16)],
+                  [("Report:ReportReq5", "hold", 8), ("Report:ReportReq3f", "hold", 8)]]
         if os.environ.get("C15_DEEP"):      # about 2*10^7 states; not part of the default thorough tier
             waves += [[("IncludeReqIL7", "hold", 16)]]
     return waves
@@ -299,6 +309,11 @@ def variants(tier, faults, phase, rng):
         out.append(("ifinc", dict(k=k, where=2, style=st())))
         out.append(("incline", dict(k=k, where=1, style=st(), n=300, fname="gen.src")))
         out.append(("incline", dict(k=k, where=2, style=st(), n=7, fname="")))
+    if len(faults) > 1 and phase == "sem":
+        # two messages adjacent in the report with the same line number on different lines (spec/Report.tla)
+        for k in ([0, 2, 16384] if tier == "quick" else [0, 1, 2, 100, 16383, 16384, 65536, 70000]):
+            for mode in ("inc", "line", "same", "rev"):
+                out.append(("adj", dict(k=k, where=1, style=st(), mode=mode)))
     if not overflowing(faults):
         for k in ([0, 2] if tier == "quick" else [0, 2, 70000]):
             out.append(("collide", dict(k=k, where=2, style=st(), n=300)))
@@ -320,6 +335,18 @@ class Interner(object):
 
 
 EXTRA_STYLES = {"nosort": (["-Mno-sort"], False, False), "preview": (["-Mpreview"], True, True), "m2": (["-M2"], True, False)}
+
+
+def styles_for(layout, faults):
+    """the styles a case is compiled in, besides the default one and -Mno-source"""
+    if layout in ("gen", "adj"):
+        return ["nosort", "preview"]
+    if layout not in ("same", "eofif") and any(f.phase in ("incl", "scan") for f in faults):
+        # reported while the includer is still filling the line table (not `eofif': as written the table entry
+        # that shadows the included file's last line is made AFTER that line's message was previewed, and the
+        # model decodes every report with the final table)
+        return ["preview"]
+    return []
 
 
 def disk_facts(d, texts):
@@ -432,8 +459,7 @@ def prepare_replay(chk, tier, build):
             except G.Skip:
                 continue
             c["id"] = len(cases) + 1
-            if lay == "gen":
-                c["styles"] = ["nosort", "preview"]
+            c["styles"] = styles_for(lay, faults)
             c["fam"], c["famkey"], c["layout"], c["kw"], c["base"] = fi, fkey, lay, kw, (vi == 0)
             c["label"] = "%s | %s %s" % (fkey, lay, json.dumps(kw, sort_keys=True))
             c["spec"] = {"faults": [[f.kind, f.i, f.col, f.pad] for f in faults], "layout": lay, "kw": kw}
@@ -630,13 +656,19 @@ def run(chk, tier):
     chk.rule = ("model: every reachable state of Include (files chosen line by line, <=3 files, <=12 lines, widths 2/3); "
                 "replay: one case per (fault family = planted fault lines with their columns) x (layout: same file / included / "
                 "nested include / #line / #line+name / #if branches / #line inside include / colliding #line names / EOF in #if) x "
-                "(k inserted code-free lines, insertion point, line style); non-trivial = at least one planted diagnostic is required")
+                "(k inserted code-free lines, insertion point, line style); non-trivial = at least one planted diagnostic is required; "
+                "report: every case's default-style report (+ -Mno-sort, -Mpreview for the layouts `adj' and `gen') is compared with "
+                "Report.tla; `gen' = final states of ReportGen.tla with two remembered lines of equal line number (all within the "
+                "bounds are enumerated by TLC; a seed-chosen sample spread over the layout classes is replayed, each remembered "
+                "line carrying 1-3 planted statements or only one clashing pair of lines)")
     chk.exhaustive = False
     chk.assumptions += [
         "the line field limit (2^48-1 global lines) cannot be reached; at scaled widths TLC shows PosFaithful needs g < 2^LNO-1",
         "message texts are compared with the texts printed for the family's base layout (same compiler), not with a fixed catalogue",
         "the column of the offending token within a fault line is part of the abstract case (the renderer pads to reach it)",
-        "files named only by #line exist as short stand-ins so that the default format can print its source excerpt",
+        "files named only by #line exist as stand-ins (the default format aborts when such a file is missing: part of finding nohead)",
+        "the order of generation of the messages is taken from the printed serial numbers (the specification does not model the phases)",
+        "a heading followed by an empty text and a heading without text look the same and are not distinguished",
     ]
     chk.extra["replay_cases"] = len(cases)
     chk.extra["ks"] = KS
@@ -650,8 +682,8 @@ def _one_case(build, spec, cid=1):
     it = Interner()
     for n, x in enumerate((base, c)):
         x["id"], x["label"] = cid + n, "replay"
-        if x is c and spec["layout"] == "gen":
-            x["styles"] = ["nosort", "preview"]
+        if x is c:
+            x["styles"] = styles_for(spec["layout"], faults)
         observe(x, compile_case(build, x), faults + x["pseudo"], it)
     ids = [f.i for f in faults] + [f.i for f in c["pseudo"]]
     recs = []
@@ -673,10 +705,14 @@ def replay(d):
     print(c["raw"][1][1][-1500:])
     vreq, _ = trace_eval(recs, "TraceSrcPosReq", 1)
     vasw, _ = trace_eval(recs, "TraceSrcPosAsw", 1)
+    for x in c["raw"][2:]:
+        print(x[1][-1500:])
     for name, v in (("required", vreq[2]), ("as written", vasw[2])):
-        print("%-10s match=%s expect=%s" % (name, v["match"], json.dumps(v["expect"])))
+        print("%-10s match=%s report-match=%s expect=%s" % (name, v["match"], v["rmatch"], json.dumps(v["expect"])))
+        print("%-10s report=%s" % ("", json.dumps(v["report"])))
     print("observed  %s" % json.dumps(recs[1]["obs"]))
-    return 0 if vreq[2]["match"] else 1
+    print("observed reports  %s" % json.dumps(recs[1]["reps"]))
+    return 0 if accepted(vreq[2]) else 1
 
 
 def selftest():
@@ -703,11 +739,23 @@ def selftest():
     m("message duplicated", lambda r: r["obs"].append(dict(r["obs"][0])))
     m("foreign message", lambda r: r["obs"].append(dict(r["obs"][0], mk=0, tx=78)))
     m("abstract case: one more inserted line than rendered", lambda r: r["files"]["inc2.as"][1].__setitem__("n", r["files"]["inc2.as"][1]["n"] + 1))
+    # the report (default style): heading, echoed text, carets, leads, grouping
+    g0 = lambda r: r["reps"][0]["groups"]
+    m("report: heading names another file", lambda r: g0(r)[0].__setitem__("file", "top.as" if g0(r)[0]["file"] != "top.as" else "inc2.as"))
+    m("report: heading line+1", lambda r: g0(r)[1].__setitem__("line", g0(r)[1]["line"] + 1))
+    m("report: echoed text is not that line's text", lambda r: g0(r)[0].__setitem__("echo", g0(r)[0]["echo"] + 50))
+    m("report: caret one column to the right", lambda r: g0(r)[0]["carets"].__setitem__(0, g0(r)[0]["carets"][0] + 1))
+    m("report: caret line not under the echoed text", lambda r: g0(r)[0].__setitem__("align", False))
+    m("report: lead column", lambda r: g0(r)[0]["leads"][0].__setitem__("col", g0(r)[0]["leads"][0]["col"] + 1))
+    m("report: two groups merged under the first heading",
+      lambda r: (g0(r)[0]["leads"].extend(g0(r)[1]["leads"]), g0(r)[0]["carets"].extend(g0(r)[1]["carets"]), g0(r).pop(1)))
+    m("report: heading missing", lambda r: g0(r)[0].update(head=False, file="", line=-1, echo=0, src=0))
+    m("report: groups in another order", lambda r: g0(r).reverse())
     v, _ = trace_eval([good] + [r for _, r in muts], "TraceSrcPosReq", 1)
-    ok = v[good["id"]]["match"]
+    ok = accepted(v[good["id"]])
     print("uncorrupted record accepted:", ok)
     for name, r in muts:
-        rej = not v[r["id"]]["match"]
+        rej = not accepted(v[r["id"]])
         ok = ok and rej
         print("corrupted (%s): %s" % (name, "rejected" if rej else "ACCEPTED"))
     vlib.cleanup_scratch()
